@@ -319,3 +319,52 @@ harness! { fn c07_tri_direct_any_3() unwind(6) { destroy_tri_direct::<3, 0, 3>(1
 harness! { fn c07_tri_direct_wild_2() unwind(5) { destroy_tri_direct::<2, 1, 3>(2) } }
 harness! { fn c07_tri_direct_wild_3() unwind(6) { destroy_tri_direct::<3, 0, 3>(2) } }
 harness! { fn c07_shared_direct_2_1() unwind(5) { destroy_shared_direct::<2, 1, 3>() } }
+
+pub mod small {
+    use super::{any_dec, Dec};
+    use crate::worlds::w1::*;
+    use crate::{cover, harness};
+    use gecs::prelude::*;
+
+    /// Public API only, two entities created by real calls, all 4^2 decision functions, no assumption
+    /// on the visiting order: small enough to stay decidable when the generated loop keeps scratch
+    /// containers of its own (a deferred-destruction implementation).
+    pub fn api_small() {
+        let mut world = W1::with_capacity(W1Capacity { arch_foo: 2, arch_bar: 0 });
+        let e = [world.create::<ArchFoo>((CA(0),)), world.create::<ArchFoo>((CA(1),))];
+        let dec = [any_dec(), any_dec()];
+        let mut visits = [0u8; 2];
+        let mut order = [9usize; 2];
+        let mut n = 0usize;
+        let mut broke = false;
+        ecs_iter_destroy!(world, |c: &CA| {
+            let id = c.0 as usize;
+            assert!(id < 2 && n < 2 && !broke, "closure ran again after Break/BreakDestroy, for a foreign value, or too often");
+            visits[id] += 1;
+            order[n] = id;
+            n += 1;
+            if dec[id].breaks() {
+                broke = true;
+            }
+            dec[id].step()
+        });
+        assert!(n >= 1 && visits[0] <= 1 && visits[1] <= 1, "an entity was visited twice or nobody was visited");
+        assert!(n == if dec[order[0]].breaks() { 1 } else { 2 }, "the pass ends exactly at the first Break/BreakDestroy");
+        let mut live = 0;
+        let mut id = 0;
+        while id < 2 {
+            let gone = visits[id] == 1 && dec[id].destroys();
+            assert!(world.contains(e[id]) == !gone, "destroyed set differs from the set of entities the closure flagged");
+            if !gone {
+                live += 1;
+                assert!(ecs_find!(world, e[id], |c: &CA| c.0) == Some(id as u8), "survivor lost its value");
+            }
+            id += 1;
+        }
+        assert!(world.arch_foo.len() == live, "len differs from the survivors");
+        cover!(n == 2 && dec[order[0]].destroys() && dec[order[1]].breaks() && !dec[order[1]].destroys(), "first visited entity flagged, second answers Break");
+        std::mem::forget(world);
+    }
+
+    harness! { fn c07_api_small() unwind(6) { api_small() } }
+}
